@@ -17,14 +17,14 @@ type miss struct {
 
 const (
 	part = "terminal"
-	// band around "completed by the global timeout": 10x the ~4 ms scheduling jitter measured under a parallel thorough run
-	completionBand = 40 * time.Millisecond
+	// band around "completed by the global timeout": 10x the largest scheduling delay (disturbedUs) a judged scenario may have seen
+	completionBand = 80 * time.Millisecond
 	// connection pools of multiplexed protocols wait up to 535 ms for the TCP handshake of a fresh
 	// host before (or between) attempts (cluster_manager.go tryConnTimes); that wait is bounded and not covered by the request timers
 	connectWait = 600 * time.Millisecond
 	answerBand  = 15 * time.Millisecond
 	// a scenario during which the test process itself was descheduled for longer than this is not judged on elapsed time
-	disturbedUs = 4000
+	disturbedUs = 8000
 )
 
 // statusClass maps what the client saw to the MOSN error it stands for ("" = not a MOSN error status we know).
